@@ -438,14 +438,15 @@ def check_adapters(ctx):
     # post-transition state (MemoryChain shows its context cue for one extra step)
     for gname in ctx.budget(["CartPole-v1", "MemoryChain-bsuite", "Catch-bsuite"],
                             ["CartPole-v1", "MemoryChain-bsuite", "Catch-bsuite", "DeepSea-bsuite", "Pendulum-v1",
-                             "DiscountingChain-bsuite"]):
+                             "DiscountingChain-bsuite", "Acrobot-v1", "MountainCar-v0", "MountainCarContinuous-v0",
+                             "UmbrellaChain-bsuite", "FourRooms-misc", "PointRobot-misc", "Reacher-misc",
+                             "BernoulliBandit-misc", "Breakout-MinAtar"]):
         try:
             genv, gparams = gymnax.make(gname)
             ad = GymnaxToLeraxEnv(genv, gparams)
         except Exception as e:  # noqa: BLE001
             ctx.note(f"gymnax {gname} not constructible here: {type(e).__name__}"[:120])
             continue
-        discrete = hasattr(genv, "num_actions") and not gname.startswith("Pendulum")
         for rep in range(ctx.budget(1, 3)):
             key = jr.key(int(rng.integers(0, 10_000)))
             state = ad.initial(key=key)
@@ -454,9 +455,8 @@ def check_adapters(ctx):
             if not ctx.close(np.asarray(ad.observation(state, key=key), np.float64), np.asarray(tobs, np.float64), 4):
                 ctx.phi_fail("adapter_reset_observation", case)
             for t in range(ctx.budget(20, 80)):
-                key, k = jr.split(key)
-                a = (jnp.asarray(int(rng.integers(0, genv.num_actions))) if discrete
-                     else jnp.asarray(rng.uniform(-1, 1, (1,)), dtype=float))
+                key, k, ka = jr.split(key, 3)
+                a = ad.action_space.sample(key=ka)     # the adapter's advertised action space (Discrete or Box)
                 nxt = ad.transition(state, a, key=k)
                 to, tstate, tr, td, _ = genv.step_env(k, tstate, a, gparams)
                 o = np.asarray(ad.observation(nxt, key=k), np.float64)
